@@ -1,4 +1,7 @@
 use std::path::PathBuf;
+
+#[global_allocator]
+static GLOBAL: vkit::alloc::Counting = vkit::alloc::Counting;
 use vkit::checks::{Ctx, registry};
 use vkit::runner::{Report, Tier, read_replay};
 
@@ -13,6 +16,14 @@ fn main() {
         usage();
     }
     let id = args[1].to_uppercase();
+    // internal sub-commands of the C08 campaign (worker processes)
+    if id == "C08" && args.get(2).map(|s| s.as_str()) == Some("--worker") {
+        std::process::exit(vkit::checks::c08::worker_main(&args[3..]));
+    }
+    if id == "C08" && args.get(2).map(|s| s.as_str()) == Some("--one") {
+        vkit::runner::install_panic_hook();
+        std::process::exit(vkit::checks::c08::run_one(std::path::Path::new(&args[3])));
+    }
     let mut tier = match std::env::var("VERIF_TIER").as_deref() {
         Ok("thorough") => Tier::Thorough,
         _ => Tier::Quick,
